@@ -1,5 +1,6 @@
 From Coq Require Import ZArith List Bool.
 From RV Require Import Base.Wire Base.Text Lang.Escape Lang.Sections.
+From RV Require Lang.StmtAst Lang.Transl Lang.Scope Wire.C01_stmtW.
 Import ListNotations.
 Open Scope Z_scope.
 
@@ -13,7 +14,10 @@ Open Scope Z_scope.
                       -> (0 kinds wf guard undeclared)
                          kinds = ranks of the stitched items in order,
                          undeclared = ((pos ident) ...)
-     (4 ... same ...) -> the same for stitch_proto / guard_proto *)
+     (4 ... same ...) -> the same for stitch_proto / guard_proto
+     (5 pre mainopt)  -> annotated statement program (encoding of Wire/C01_stmtW.v) through
+                         Lang.Transl.transl and Lang.Scope:
+                         (0 1 setup_ok loop_ok all_ok_with_aug setup_has_no_toplevel_local) | (0 0) rejected *)
 
 Definition un_body (v : wv) : option body :=
   match v with
@@ -83,6 +87,24 @@ Definition run (v : wv) : wv :=
       match un_sketch inc hlp glb fns ult st lp with
       | Some sk => enc_items (stitch_proto sk) (guard_proto sk)
       | None => wbad
+      end
+  | WL [WI 5; WL pre; WL mainopt] =>
+      match C01_stmtW.dec_stmts pre,
+            match mainopt with
+            | [] => Some None
+            | [WL b] => option_map Some (C01_stmtW.dec_stmts b)
+            | _ => None end with
+      | Some p, Some m =>
+          match Transl.transl {| StmtAst.p_pre := p; StmtAst.p_main := m |} with
+          | Some c =>
+              let G := Scope.gnames (StmtAst.c_globals c) in
+              wok [WI 1; wbool (Scope.scoped_b false G (StmtAst.c_setup c));
+                   wbool (Scope.scoped_b false G (StmtAst.c_loop c));
+                   wbool (Scope.scoped_prog true c);
+                   wbool (match Scope.topdecls (StmtAst.c_setup c) with [] => true | _ => false end)]
+          | None => wok [WI 0]
+          end
+      | _, _ => wbad
       end
   | _ => wbad
   end.
